@@ -324,7 +324,9 @@ def run(ctx) -> list[Inst]:
                         msg=(f"'{path[-1]}' is written as '{stmt_text(w.value, 70)}': {w.conv[6:]} maps different "
                              f"values of {w.src or 'the field'} to the same text, no reader can restore them "
                              f"(the loaded value differs from the saved one)"),
-                        file=w.func.module.relpath, line=w.value.lineno, props=props))
+                        file=w.func.module.relpath, line=w.value.lineno,
+                        # the neo4j export sends what AttackGraphNode.to_dict produces
+                        props=props + (('C19',) if w.func.short == 'AttackGraphNode.to_dict' else ())))
                     continue
                 if w.conv in ('dict', 'call', 'list-literal', 'const', 'other', 'none'):
                     continue
